@@ -93,6 +93,14 @@ pub fn fnv_many<'a>(parts: impl IntoIterator<Item = &'a [u8]>) -> u64 {
 // Payloads: a pure function of (seed, tag, index, length)
 
 pub fn payload(seed: u64, tag: u64, index: u64, len: usize) -> Vec<u8> {
+    payload_with(seed, tag, index, len, None)
+}
+
+/// Number of round-level structures `payload_with` knows.
+pub const ROUND_KINDS: u64 = 12;
+
+/// `payload`, with the round-level structure forced to `kind` (see below) instead of drawn from (seed, tag).
+pub fn payload_with(seed: u64, tag: u64, index: u64, len: usize, kind: Option<u64>) -> Vec<u8> {
     let mut key = [0u8; 32];
     key[..8].copy_from_slice(&seed.to_le_bytes());
     key[8..16].copy_from_slice(&tag.to_le_bytes());
@@ -138,8 +146,8 @@ pub fn payload(seed: u64, tag: u64, index: u64, len: usize) -> Vec<u8> {
     rk[8..16].copy_from_slice(&tag.to_le_bytes());
     rk[24..32].copy_from_slice(&0x40b1d_u64.to_le_bytes());
     let g = ChaCha8Rng::from_seed(rk).next_u64();
-    if g % 5 == 0 && len >= 2 {
-        let kind = (g >> 8) % 12;
+    if (g % 5 == 0 || kind.is_some()) && len >= 2 {
+        let kind = kind.unwrap_or((g >> 8) % ROUND_KINDS);
         let lane_zero = |s: usize| -> bool {
             match kind {
                 0 => s < 16,
